@@ -511,6 +511,9 @@ func check(id, tier string) int {
 		fmt.Printf("(%d more distinct violations; replay files written)\n", newViol-12)
 	}
 	exhaustive := !m.Capped && m.ItemsDone == m.Items
+	if os.Getenv("ZOGMC_ITEMS") != "" {
+		exhaustive = false // only the items matching a development filter were run
+	}
 	if b, ok := m.Extra["search_budget_hit"].(bool); ok && b {
 		exhaustive = false // the property's own state search stopped at its time/size budget
 	}
